@@ -19,11 +19,11 @@ func NewModel(opts ...resource.Option) *Model {
 	defaultOptions := []resource.Option{resource.WithInitialValue(&traits.MeterReading{})}
 	value := resource.NewValue(append(defaultOptions, opts...)...)
 	// make sure start and end time are recorded
-	_, _ = value.Set(&traits.MeterReading{}, resource.InterceptBefore(func(old, new proto.Message) {
-		oldVal := old.(*traits.MeterReading)
+	// an empty update mask keeps the configured initial value, the interceptor only fills in missing times
+	_, _ = value.Set(&traits.MeterReading{}, resource.WithUpdatePaths(), resource.InterceptAfter(func(old, new proto.Message) {
 		newVal := new.(*traits.MeterReading)
 		now := value.Clock().Now()
-		if oldVal.StartTime == nil {
+		if newVal.StartTime == nil {
 			newVal.StartTime = timestamppb.New(now)
 		}
 		if newVal.EndTime == nil {
@@ -49,7 +49,8 @@ func (m *Model) UpdateMeterReading(meterReading *traits.MeterReading, opts ...re
 
 // RecordReading records a new usage value, updating end time to now.
 func (m *Model) RecordReading(val float32) (*traits.MeterReading, error) {
-	return m.UpdateMeterReading(&traits.MeterReading{Usage: val}, resource.InterceptBefore(func(old, new proto.Message) {
+	// only usage is written so that the start time is kept; the end time is set on the merged message
+	return m.UpdateMeterReading(&traits.MeterReading{Usage: val}, resource.WithUpdatePaths("usage"), resource.InterceptAfter(func(old, new proto.Message) {
 		now := m.meterReading.Clock().Now()
 		newVal := new.(*traits.MeterReading)
 		newVal.EndTime = timestamppb.New(now)
